@@ -22,13 +22,18 @@ def replay_run(ctx, rec):
     ok = True
     for copy_buf in (True, False):
         try:
-            out = sl.run_split(brs, n, bs, copy_buf)
+            outs = sl.run_split(brs, n, bs, copy_buf, runs=2)
         except Exception as exc:   # noqa
-            out = "raised " + exc_name(exc)
-        if out != exp:
+            outs = ["raised " + exc_name(exc)]
+        if outs[0] != exp:
             ok = False
             ctx.violation("Split.run:%s:bs=%s:N=%d" % (kinds_key(brs), "None" if bs == NONE else bs, n),
-                          {"brs": brs, "N": n, "bs": bs, "copy_buf": copy_buf, "expected": exp, "observed": out})
+                          {"brs": brs, "N": n, "bs": bs, "copy_buf": copy_buf, "expected": exp, "observed": outs[0]})
+        elif outs[1:] != [exp]:
+            # Rerun of Split.tla: the same object, all branches active again
+            ok = False
+            ctx.violation("Split.run:second-run-of-same-object:%s" % kinds_key(brs),
+                          {"brs": brs, "N": n, "bs": bs, "copy_buf": copy_buf, "expected": exp, "second_run": outs[1:]})
     ctx.case(["run", brs, n, bs], nontrivial=bool(brs) and n > 0)
     return ok
 
@@ -72,7 +77,7 @@ def replay_ct(ctx, rec):
         return False
     # same meaning as run: fill;...;compute == Split.run on the same flow (one result per branch)
     if kind == "fc" and not zipped and rec["hist"] and rec["hist"][-1][0] == "c":
-        n = len(rec["hist"]) - 1
+        n = sum(1 for op in rec["hist"] if op[0] == "f")
         els2 = [sl.TFC(b + 1, None, ms[b]) for b in range(nb)]
         r = [sl.untag(x) for x in lena.core.Split(els2).run(iter(range(n)))]
         if r != got[-1]["s"]:
@@ -127,7 +132,7 @@ def run(ctx):
     tag = "thorough" if ctx.thorough else "quick"
     ctx.assume("branches are harness elements with tagged outputs; flow values are the integers 0..N-1")
     ctx.mc("Split", "Split_%s.cfg" % tag, coverage=True,
-           must_cover=("Identity", "ReadBlock", "BranchSrc", "BranchFC", "BranchFR", "BranchSeq", "BlockDone", "Final"))
+           must_cover=("Identity", "ReadBlock", "BranchSrc", "BranchFC", "BranchFR", "BranchSeq", "BlockDone", "Final", "Rerun"))
     ctx.mc("SplitCT", "SplitCT_mc.cfg", coverage=True, must_cover=("FillOne", "Compute", "Request", "Call"))
     if ctx.thorough:
         ctx.mc("Split", "Split_deep.cfg")   # 4 branches over the 7-kind alphabet, exhaustive
